@@ -39,7 +39,8 @@ def vbreaks(path, ncells, family='graded'):
 
 
 def work(item):
-    degree, ncells, path, edge, smax, canary = item
+    degree, ncells, path, edge, smax, canary = item[:6]
+    hist = len(item) > 6 and item[6]          # an earlier step (other shift, other radius, other data) on the same object
     res = H.worker_result()
     m = dist.mods()
     adv = H.repo_import('pygyro.advection.advection')
@@ -69,6 +70,11 @@ def work(item):
         r = SReal(z3.Real('r'))
         ctx.assume(r.t > 0)
         st.update(f0=f0, s=s, pts=pts, r=r, n=n)
+        if hist:
+            g = np.empty(n, dtype=object)
+            for k in range(n):
+                g[k] = K(Fr(2 + k * k, 5))
+            va.step(g, K(1), K(width * Fr(5, 4)), K(Fr(7, 3)))
         va.step(f, K(1), SReal(s), r)
         return list(f)
 
@@ -90,6 +96,8 @@ def work(item):
                 setattr(FC, k_, float(getattr(Consts, k_)))
             va = adv.VParallelAdvection([None, None, None, pts], fb, FC, edge=edge)
             f = np.array([float(x) for x in data])
+            if hist:
+                va.step(np.array([(2 + k * k) / 5.0 for k in range(n)]), 1.0, float(width * Fr(5, 4)), 7.0 / 3.0)
             va.step(f, 1.0, float(sv), float(rv))
             got = float(f[i])
             foot = Fr(pts[i]).limit_denominator(10 ** 12) - Fr(sv)
@@ -260,6 +268,8 @@ def main():
             items.append((3, 3, 'nu', edge, 1, None))
             items.append((4, 2, 'nu', edge, 1, None))
     items.append((3, 3, 'cu', 'periodic', 2, None))          # shifts of up to two domain widths of either sign
+    items.append((3, 3, 'cu', 'fEq', 1, None, True))         # history: the object has already advanced another line
+    items.append((2, 2, 'nu', 'null', 1, None, True))
     items.append((3, 3, 'cu', 'fEq', 1, CANARIES[0]))
     items.append((3, 3, 'cu', 'null', 1, CANARIES[1]))
     caught = {}
